@@ -84,7 +84,7 @@ def norm_rule(rc):
         for s, v, node in cand:
             fm = path_formula(s, _atomize, drop_validation=True)
             may_be_bn = not implies(fm, Not(A("isBN")), extra_atoms=("isBN",))[0]
-            exempt = any(isinstance(t, ast.UnaryOp) and dotted(t.operand) == "variables" and pol for t, pol in s.conds)
+            exempt = any(dotted(t) == "variables" and not pol for t, pol in s.conds)
             rc.ob(f"{q}: {norm(node, 70)} under {show_formula(fm)} (BN possible: {may_be_bn}; no-variables branch: {exempt})")
             if exempt or not may_be_bn:
                 continue
